@@ -141,12 +141,14 @@ Qed.
 Print Assumptions C05_former_witnesses_balanced.
 
 (* ---- references derived from a temporary owner (element / field of a temporary container) ----------------------- *)
-(* the discipline has no action that reads a place whose owner is not owned (any more): every deep copy out of a place
-   (declaration/assignment/argument copy, list-literal component, right operand of a concatenation, element assignment)
-   is rejected once the owner slot was released or claimed away.  A reference derived from a temporary must therefore
+(* the discipline has no action that reads a place whose owner is not owned (any more): a read in place (IUse: Länge,
+   gleich, the source of a slice) and every deep copy out of a place (declaration/assignment/argument copy, list-literal
+   component, right operand of a concatenation, element assignment) is rejected once the owner slot was released or
+   claimed away.  A reference derived from a temporary must therefore
    be copied before the scope of that temporary ends. *)
 Theorem C05_derived_reference_needs_owner :
   forall K G p, mem (root p) (o_own G) = false ->
+  own_check K (IUse p) G = None /\
   (forall d, own_check K (ICopy d p) G = None) /\
   (forall d, own_check K (IAbsorbCopy d p) G = None) /\
   (forall d a, own_check K (IConcat d a p) G = None) /\
@@ -157,12 +159,13 @@ Print Assumptions C05_derived_reference_needs_owner.
 (* `(f an der Stelle 2), falls c, ansonsten v`, `v, falls c, ansonsten (<list literal> an der Stelle 1)` and a Solange
    condition comparing `(f an der Stelle 1)` (f returns a list: the indexed list is a temporary): BIN_INDEX copies the
    element inside the arm / the condition scope while the list is owned, the program is accepted and balanced on every
-   path; the emission that hands a plain reference into the temporary list out of the arm (copy after the arm's scope
-   released the list) is rejected by the discipline *)
+   path; the emission that hands a plain reference into the temporary list out of the arm (copy, or a mere comparison,
+   after the arm's scope released the list) is rejected by the discipline *)
 Theorem C05_element_of_temporary_in_falls :
   (forall fuel oracle L, run_program fuel oracle wit_elem_of_temp = Some L -> balanced L) /\
   own_check ctx0 arm_copy_then_release (mkO [] []) = Some (Some (mkO [] [])) /\
-  own_check ctx0 arm_release_then_copy (mkO [] []) = None.
+  own_check ctx0 arm_release_then_copy (mkO [] []) = None /\
+  own_check ctx0 arm_release_then_read (mkO [] []) = None.
 Proof. exact (conj (fun fuel oracle L => program_ok_balanced wit_elem_of_temp fuel oracle L elem_of_temp_accepted) derived_reference_must_not_outlive_owner). Qed.
 Print Assumptions C05_element_of_temporary_in_falls.
 
